@@ -11,9 +11,11 @@ the harness puts below the root.  The model never touches anything outside the r
 namespace PB.Drv.C18
 open PB PB.Paths
 
-def sbx : Path := [47, 83, 66, 88, 55] -- "/SBX7"
-
 def bs (s : String) : Path := s.toUTF8.toList
+
+/-- The virtual sandbox top: the case directory of the harness is `/`, the top sits 8 levels below it. -/
+def sbxSegs : List Path := [bs "p1", bs "p2", bs "p3", bs "p4", bs "p5", bs "p6", bs "p7", bs "p8", bs "sb"]
+def sbx : Path := 47 :: joinSep sbxSegs
 
 def hexList (xs : List Path) : String :=
   if xs.isEmpty then "_" else String.intercalate "," (xs.map toHex)
@@ -27,6 +29,8 @@ structure Cfg where
   rootGiven : Path   -- as handed to the component (trailing slash in variant `slash`)
   variant : String
   cwd : Path
+  fsState : String := "plain"   -- comp fst: what stands at the root's place (set by `fss`)
+  tree : DTree := []   -- comp dsh: the DirStructure tree of this case (ChildDir calls accumulate)
 
 inductive Kind where
   | file | dir | absent | blocked
@@ -49,8 +53,18 @@ def kindAt (files dirs : List Path) (root p : Path) : Kind :=
   | some rel => kindIn files dirs rel
   | none => .absent
 
-def fstFiles : List Path := [bs "a", bs "d/b", bs "d/e/c"]
-def fstDirs : List Path := [bs "d", bs "d/e"]
+def bytesLt : Path → Path → Bool
+  | [], [] => false
+  | [], _ :: _ => true
+  | _ :: _, [] => false
+  | a :: as, b :: bs => if a < b then true else if b < a then false else bytesLt as bs
+
+def insertSorted (x : Path) : List Path → List Path
+  | [] => [x]
+  | y :: ys => if bytesLt y x then y :: insertSorted x ys else x :: y :: ys
+
+def sortPaths (xs : List Path) : List Path := xs.foldr insertSorted []
+
 def updFiles : List Path := [bs "all/sub/y_v2-0-1.txt", bs "all/x_v1-0-0", bs "readme"]
 def updIds : List (Path × Path) := [(bs "all/sub/y_v2-0-1.txt", bs "all/sub/y.txt"), (bs "all/x_v1-0-0", bs "all/x")]
 def updDirs : List Path := [bs "all", bs "all/sub", bs "tmp"]
@@ -61,8 +75,84 @@ def fin (dec : String) : String := dec ++ " outside=none"
 
 def rej (e : Err) : String := fin s!"rej {e.str}"
 
+/-! #### The file system of an `fst` case: the sandbox the harness builds (ancestors with notes, siblings with
+decoys) and, at the root's place, what the current state (`fss` line) puts there. -/
+
+abbrev Item := Path × (Bool ⊕ Ents)
+
+def insertItem (x : Item) : List Item → List Item
+  | [] => [x]
+  | y :: ys => if bytesLt y.1 x.1 then y :: insertItem x ys else x :: y :: ys
+
+/-- A directory from its entries, sorted by name as `readDirNames` delivers them. -/
+def mkDir (items : List Item) : Ents :=
+  (items.foldr insertItem []).foldr (fun (it : Item) acc => match it.2 with
+    | .inl ok => Ents.file it.1 ok acc
+    | .inr sub => Ents.dir it.1 sub acc) Ents.nil
+
+def firstSegs (ps : List (List Path)) : List Path :=
+  ps.foldl (fun acc p => match p with | s :: _ => if acc.contains s then acc else acc ++ [s] | [] => acc) []
+
+/-- A directory tree from the relative paths of its files (with their `ok` bit) and of its (possibly empty) directories. -/
+def treeOf : Nat → List (List Path × Bool) → List (List Path) → Ents
+  | 0, _, _ => Ents.nil
+  | fuel + 1, files, dirs =>
+    let names := firstSegs (files.map (·.1) ++ dirs)
+    mkDir (names.map (fun n =>
+      match files.find? (fun f => f.1 = [n]) with
+      | some f => (n, Sum.inl f.2)
+      | none =>
+        let fs' := files.filterMap (fun f => match f.1 with | s :: t => if s = n ∧ t ≠ [] then some (t, f.2) else none | [] => none)
+        let ds' := dirs.filterMap (fun d => match d with | s :: t => if s = n ∧ t ≠ [] then some t else none | [] => none)
+        (n, Sum.inr (treeOf fuel fs' ds'))))
+
+def segsOf (p : Path) : List Path := splitSep p
+
+/-- What stands at the root's place in each state; `none`: unknown state. -/
+def fstRootNode (state : String) : Option (Option (Bool ⊕ Ents)) :=
+  let t := fun (files : List (String × Bool)) (dirs : List String) =>
+    some (some (Sum.inr (treeOf 6 (files.map (fun f => (segsOf (bs f.1), f.2))) (dirs.map (fun d => segsOf (bs d))))))
+  match state with
+  | "plain" => t [("a", true), ("d/b", true), ("d/e/c", true)] ["d", "d/e"]
+  | "rmroot" => some none
+  | "rootfile" => some (some (Sum.inl true))
+  | "rmd" => t [("a", true)] []
+  | "dfile" => t [("a", true), ("d", true)] []
+  | "extra" => t [("a", true), ("d/b", true), ("d/e/c", true), ("da", true), ("dx/f", true)] ["d", "d/e", "dx"]
+  | "bad" => t [("a", true), ("c0", false), ("d/b", true), ("d/e/c", true)] ["d", "d/e"]
+  | "empty" => t [] []
+  | _ => none
+
+def siblingDir : Ents :=
+  mkDir [(bs "plain.txt", Sum.inl false), (bs "secret", Sum.inl true), (bs "sub", Sum.inr Ents.nil)]
+
+/-- The directory at one level of the ancestor chain (`first`: the sandbox top). -/
+def sandboxLevel (rootNode : Option (Bool ⊕ Ents)) (first : Bool) : List Path → Ents
+  | [] => Ents.nil
+  | [name] =>
+    mkDir ([(if first then bs "top.txt" else bs "note.txt", Sum.inl false),
+      (name ++ bs "-other", Sum.inr siblingDir), (name ++ bs "x", Sum.inr siblingDir), (bs "other", Sum.inr siblingDir),
+      (name ++ bs "-old", Sum.inr (mkDir [(bs "secret", Sum.inl true)]))] ++
+      (match rootNode with | some n => [(name, n)] | none => []))
+  | seg :: rest =>
+    mkDir [(if first then bs "top.txt" else bs "note.txt", Sum.inl false), (seg, Sum.inr (sandboxLevel rootNode false rest))]
+
+/-- The whole file system: `/p1/../p8/sb/...`. -/
+def sandboxFs (rootRel : Path) (rootNode : Option (Bool ⊕ Ents)) : Ents :=
+  sbxSegs.foldr (fun seg inner => Ents.dir seg inner Ents.nil) (sandboxLevel rootNode true (segsOf rootRel))
+
+def fsKind (fs : Ents) (p : Path) : Kind :=
+  match fsLookup fs p with
+  | .file _ => .file | .dir _ => .dir | .absent => .absent | .notdir => .blocked
+
+def insideStr (root p : Path) : Bool := p = root || hasPrefix p (root ++ [47])
+
 def doFst (c : Cfg) (op : String) (key : Path) : String :=
-  let k := kindAt fstFiles fstDirs c.root
+  match fstRootNode c.fsState with
+  | none => "bad-op"
+  | some rootNode =>
+  let fs := sandboxFs (c.root.drop (sbx.length + 1)) rootNode
+  let k := fsKind fs
   match op with
   | "put" => match buildFilePath c.root key true with
     | .error e => rej e
@@ -75,6 +165,12 @@ def doFst (c : Cfg) (op : String) (key : Path) : String :=
       | .file => fin s!"acc data {toHex dst}"
       | .absent => fin "acc notfound"
       | _ => fin "acc oserr"
+  | "gmt" => match buildFilePath c.root key true with   -- GetMeta = Get, the record's metadata returned
+    | .error e => rej e
+    | .ok dst => match k dst with
+      | .file => fin "acc meta"
+      | .absent => fin "acc notfound"
+      | _ => fin "acc oserr"
   | "del" => match buildFilePath c.root key true with
     | .error e => rej e
     | .ok dst => match k dst with
@@ -82,18 +178,12 @@ def doFst (c : Cfg) (op : String) (key : Path) : String :=
       | .absent => fin "acc deleted _"  -- os.Remove's ENOENT is ignored
       | _ => fin "acc oserr"
   | "qry" =>
-    let stat : Path → Option StatKind := fun p => match k p with
-      | .dir => some .dir | .file => some .file | .absent => some .absent | .blocked => none
-    match buildFilePath c.root key false with
+    match queryRun fs c.root key with
+    | .error .statErr => fin "acc oserr"
     | .error e => rej e
-    | .ok wp => match stat wp with
-      | none => fin "acc oserr"
-      | some _ =>
-        match queryWalkRoot c.root key (fun p => (stat p).getD .absent) with
-        | .error e => rej e
-        | .ok wr => match k wr, relTo c.root wr with
-          | .dir, some r => fin s!"acc keys {hexList ((fstFiles.filter (fun f => underRel r f && queryMatchesKey key f)).map (fun f => c.root ++ 47 :: f))}"
-          | _, _ => fin "acc keys _"  -- the walk fails asynchronously and delivers nothing
+    | .ok r =>
+      let out := if r.acc.all (fun a => insideStr c.root a.path) then "none" else "model-reaches-outside"
+      s!"acc keys {hexList (sortPaths (r.keys.map (join2 c.root)))}{if r.stop then " walkerr" else ""} outside={out}"
   | _ => "bad-op"
 
 def dedup : List Path → List Path
@@ -108,17 +198,63 @@ def showEnsure (c : Cfg) (r : Except Err (List Path)) : String :=
     let ds := if c.variant = "noexist" then ds else ds.filter (· ≠ c.root)
     fin s!"acc dirs {hexList ds}"
 
-def bytesLt : Path → Path → Bool
-  | [], [] => false
-  | [], _ :: _ => true
-  | _ :: _, [] => false
-  | a :: as, b :: bs => if a < b then true else if b < a then false else bytesLt as bs
+def octStr (n : Nat) : String := String.ofList (Nat.toDigits 8 n)
 
-def insertSorted (x : Path) : List Path → List Path
-  | [] => [x]
-  | y :: ys => if bytesLt y x then y :: insertSorted x ys else x :: y :: ys
+def parseOct (s : String) : Option Nat :=
+  if s.isEmpty ∨ s.length > 4 then none
+  else s.toList.foldl (fun acc c => match acc with
+    | none => none
+    | some v => if '0' ≤ c ∧ c ≤ '7' then some (v * 8 + (c.toNat - 48)) else none) (some 0)
 
-def sortPaths (xs : List Path) : List Path := xs.foldr insertSorted []
+/-- Last permission handed to `EnsureDirectory` per directory, in order of first appearance. -/
+def lastPerms : List (Path × Nat) → List (Path × Nat) → List (Path × Nat)
+  | acc, [] => acc
+  | acc, (p, m) :: rest =>
+    let q := clean p
+    if acc.any (·.1 = q) then lastPerms (acc.map (fun e => if e.1 = q then (q, m) else e)) rest
+    else lastPerms (acc ++ [(q, m)]) rest
+
+/-- comp dsh: result of an `Ensure*` call on the tree — directories created (root content is emptied before every
+    call, the root itself exists with mode 755 unless variant `noexist`) with their final modes. -/
+def showEnsureT (c : Cfg) (r : Except Err (List (Path × Nat))) : String :=
+  match r with
+  | .error e => rej e
+  | .ok dirs =>
+    let ds := lastPerms [] dirs
+    let ds := if c.variant = "noexist" then ds else ds.filter (·.1 ≠ c.root)
+    let names := sortPaths (ds.map (·.1))
+    let items := names.map (fun p => toHex p ++ ":" ++ octStr ((ds.find? (·.1 = p)).map (·.2) |>.getD 0))
+    fin ("acc dirsm " ++ (if items.isEmpty then "_" else String.intercalate "," items))
+
+def doDsh (c : Cfg) (f : List String) : Cfg × String :=
+  let t := c.tree
+  match f with
+  | ["chd", h, name, perm] =>
+    match h.toNat?, parseHex name, parseOct perm with
+    | some h, some name, some perm =>
+      if h < t.length then
+        let (t', idx) := childDir t h name perm
+        let p := t'.pathOf idx
+        ({ c with tree := t' }, fin s!"child {idx} {toHex p}")
+      else (c, "bad-op")
+    | _, _, _ => (c, "bad-op")
+  | ["hens", h] =>
+    match h.toNat? with
+    | some h => if h < t.length then (c, showEnsureT c (ensureT t h)) else (c, "bad-op")
+    | none => (c, "bad-op")
+  | ["hena", h, p] =>
+    match h.toNat?, parseHex p with
+    | some h, some p => if h < t.length then (c, showEnsureT c (ensureAbsPathT t h p)) else (c, "bad-op")
+    | _, _ => (c, "bad-op")
+  | ["henr", h, p] =>
+    match h.toNat?, parseHex p with
+    | some h, some p => if h < t.length then (c, showEnsureT c (ensureRelPathT t h p)) else (c, "bad-op")
+    | _, _ => (c, "bad-op")
+  | ["hend", h, l] =>
+    match h.toNat?, parseHexList l with
+    | some h, some xs => if h < t.length then (c, showEnsureT c (ensureRelDirT t h xs)) else (c, "bad-op")
+    | _, _ => (c, "bad-op")
+  | _ => (c, "bad-op")
 
 /-- The unpack loop with the state of the unpack directory: (path, isDir). -/
 def unzLoop (tmp : Path) : List (Path × Bool) → List Path → String
@@ -177,18 +313,26 @@ def step (st : Option Cfg) (line : String) : Option Cfg × String :=
     match parseHex rr, parseHex cw with
     | some rr, some cw =>
       if ¬ validRel rr ∨ (cw ≠ [] ∧ ¬ validRel cw) then (st, "bad-op")
-      else if ¬ (comp = "fst" ∨ comp = "ds" ∨ comp = "upd" ∨ comp = "lib") then (st, "bad-op")
-      else if ¬ (variant = "plain" ∨ variant = "slash" ∨ variant = "noexist") then (st, "bad-op")
+      else if ¬ (comp = "fst" ∨ comp = "ds" ∨ comp = "dsh" ∨ comp = "upd" ∨ comp = "lib") then (st, "bad-op")
+      else if ¬ (variant = "plain" ∨ variant = "slash" ∨ variant = "noexist" ∨ (variant = "nested" ∧ comp = "upd")) then (st, "bad-op")
       else
         let root := sbx ++ 47 :: rr
         let given := if variant = "slash" then root ++ [47] else root
         let cwd := if cw = [] then sbx else sbx ++ 47 :: cw
-        (some { comp, root, rootGiven := given, variant, cwd }, "ok")
+        (some { comp, root, rootGiven := given, variant, cwd, tree := newDirStructure given 0o755 }, "ok")
     | _, _ => (st, "bad-op")
   | f =>
     match st with
     | none => (st, "bad-op")
     | some c =>
+      if c.comp = "dsh" then
+        let (c', out) := doDsh c f
+        (some c', out)
+      else if c.comp = "fst" ∧ f.head? = some "fss" then
+        match f with
+        | ["fss", st] => if (fstRootNode st).isSome then (some { c with fsState := st }, "ok") else (some c, "bad-op")
+        | _ => (some c, "bad-op")
+      else
       let out :=
         if c.comp = "lib" then doLib f
         else match c.comp, f with
